@@ -70,7 +70,9 @@ func c11Calls() []c11Call {
 			case "idref":
 				return &ygot.RFC7951JSONConfig{PrependModuleNameIdentityref: true}
 			case "rewrite":
-				return &ygot.RFC7951JSONConfig{AppendModuleName: true, RewriteModuleNames: map[string]string{"vt-aug": "vt", "voc": "vocx"}}
+				// the rules form chains (vt-aug -> vt -> vtz, voc -> vocx -> vocy): a renderer that resolves a
+				// chain may be tempted to write the resolved target back into the caller's map
+				return &ygot.RFC7951JSONConfig{AppendModuleName: true, RewriteModuleNames: map[string]string{"vt-aug": "vt", "vt": "vtz", "voc": "vocx", "vocx": "vocy"}}
 			}
 			return &ygot.RFC7951JSONConfig{}
 		}
